@@ -440,6 +440,16 @@ def run_trace(chk, V, recs, tmp):
 
 # --------------------------------------------------------------------------
 
+def _spread_clauses(chk):
+    """Check.finish writes at most 20 replay files: put one representative of every distinct
+    clause first so that each kind of violation is among them."""
+    seen, first, rest = set(), [], []
+    for v in chk.violations:
+        (rest if v[0] in seen else first).append(v)
+        seen.add(v[0])
+    chk.violations = first + rest
+
+
 def run(tier, replay=None):
     chk = Check("C15", tier)
     chk.rule = ("A: TLC checks the C15 clauses (PR range / scale invariance / extremes, PQ range, linear-field div & curl, "
@@ -507,6 +517,7 @@ def run(tier, replay=None):
         recs = gen_records(rng, nrec)
         for lo in range(0, len(recs), 600):
             run_trace(chk, V, recs[lo:lo + 600], tmp)
+        _spread_clauses(chk)
         return chk.finish()
     finally:
         shutil.rmtree(tmp, ignore_errors=True)
